@@ -3,6 +3,7 @@
 #include "oracles.h"
 #include "gens.h"
 #include <ImathVec.h>
+#include <stdexcept>
 
 using namespace orc;
 using namespace IMATH_NAMESPACE;
@@ -175,11 +176,19 @@ template <class V, class T, int N> static void length_case (vp::Ctx& c, const ch
         return;
     }
     {
-        V a = v;
-        a.normalizeExc ();
-        n[cnt++] = a;
-        n[cnt++] = v.normalizedExc ();
-        V b      = v;
+        // the Exc forms may throw only for the null vector (this one is not null)
+        try
+        {
+            V a = v;
+            a.normalizeExc ();
+            n[cnt++] = a;
+            n[cnt++] = v.normalizedExc ();
+        }
+        catch (const std::exception& ex)
+        {
+            VP_FAIL (c, "normalizeExc-throws-for-nonnull", tname << " normalizeExc/normalizedExc threw '" << ex.what () << "' for the non-null vector " << vstr (v, N) << " (norm " << qstr (norm) << ")");
+        }
+        V b = v;
         b.normalizeNonNull ();
         n[cnt++] = b;
         n[cnt++] = v.normalizedNonNull ();
